@@ -437,3 +437,172 @@ example :
                       { binding := some "cron", type := some "Schedule" }]).log
       = [(0, some 0, some 0), (1, some 1, some 1), (2, some 2, some 2)] := by
   decide
+
+/-! ## Sixth wave: the order of "load the library" and "define the functions"; what runs in the main shell -/
+
+/-- Loading the bundled library defines exactly these functions — none of them in the hook's namespace
+(`__config__`, `__main__`, `__on_…`: names that start with two underscores) — and nothing in the
+library binds or removes functions in another way (`eval`, `alias`, `unset`, `declare -f` would set
+`c19Stale`, see `table_fresh`). -/
+theorem library_functions :
+    Facts.c19LibFunctions = ["backtrace", "context::global::jq", "context::jq", "context::get", "context::has",
+      "context::is_true", "context::is_false", "context::is_null", "context::_convert_user_path_to_jq_path",
+      "context::_dirname", "context::_basename", "hook::run", "hook::_get_possible_handler_names",
+      "hook::_run_first_available_handler"] ∧
+    Facts.c19LibFunctions.all (fun f => !hookName f) = true := by decide
+
+theorem hookName_append (p s : String) (h : hookName p = true) : hookName (p ++ s) = true := by
+  unfold hookName at *
+  rw [String.toList_append]
+  match hp : p.toList with
+  | [] => simp [hp] at h
+  | [a] => simp [hp] at h
+  | a :: b :: r => simpa [hp] using h
+
+theorem hn0 : hookName "__main__" = true := by decide
+theorem hn1 : hookName "__on_startup" = true := by decide
+theorem hnk (s : String) : hookName ("__on_kubernetes::" ++ s) = true := hookName_append _ _ (by decide)
+theorem hng (s : String) : hookName ("__on_group::" ++ s) = true := hookName_append _ _ (by decide)
+theorem hns (s : String) : hookName ("__on_schedule::" ++ s) = true := hookName_append _ _ (by decide)
+theorem hnv (s : String) : hookName ("__on_validating::" ++ s) = true := hookName_append _ _ (by decide)
+theorem hnm (s : String) : hookName ("__on_mutating::" ++ s) = true := hookName_append _ _ (by decide)
+theorem hnc (s : String) : hookName ("__on_conversion::" ++ s) = true := hookName_append _ _ (by decide)
+
+/-- Every name the property mentions on the hook's side — each documented candidate of each context
+(any binding, group and version strings) and `__main__` — lies in the hook's namespace. -/
+theorem documented_in_hook_namespace (c : Ctx) : ∀ n ∈ Spec.documented c, hookName n = true := by
+  have key : (Spec.documented c).all hookName = true := by
+    unfold Spec.documented
+    simp only []
+    repeat' split
+    all_goals simp [hookName_append, hn0, hn1, hnk, hng, hns, hnv, hnm, hnc]
+  intro n hn
+  exact (List.all_eq_true.mp key) n hn
+
+theorem config_in_hook_namespace : hookName Facts.c19ConfigFn = true ∧ Facts.c19ConfigFn = "__config__" := by decide
+
+theorem bound_hook_name (n : String) (hl : Facts.c19LibFunctions.contains n = false) :
+    ∀ (segs : List Seg) (o : Option Owner),
+      bound n segs o = if definesIn segs n then some .hook else o := by
+  intro segs
+  induction segs with
+  | nil => intro o; simp [bound, definesIn]
+  | cons sg rest ih =>
+    intro o
+    cases sg with
+    | lib =>
+      simp only [bound, hl, Bool.false_eq_true, if_false]
+      rw [ih]
+      simp [definesIn]
+    | defs ns =>
+      simp only [bound]
+      rw [ih]
+      have hd : definesIn (Seg.defs ns :: rest) n = (ns.contains n || definesIn rest n) := by simp [definesIn]
+      rw [hd]
+      cases ns.contains n <;> cases definesIn rest n <;> simp
+
+/-- **C19.5** For every script layout — every sequence of "the hook defines functions" and "the library
+is loaded", in any order and any number of times — and every name of the hook's namespace: the function
+bound to that name when `hook::run` is called is the hook's own definition if the hook defined it
+anywhere, and no function otherwise. Loading the library never replaces, shadows or supplies
+`__config__`, `__main__` or a handler. -/
+theorem own_definitions_survive_loading (segs : List Seg) (n : String) (hn : hookName n = true) :
+    boundAfter segs n = if definesIn segs n then some .hook else none := by
+  have hall := library_functions.2
+  have hl : Facts.c19LibFunctions.contains n = false := by
+    cases hc : Facts.c19LibFunctions.contains n with
+    | false => rfl
+    | true =>
+      have hm : n ∈ Facts.c19LibFunctions := by simpa using hc
+      have := (List.all_eq_true.mp hall) n hm
+      simp [hn] at this
+  exact bound_hook_name n hl segs none
+
+/-- Tightness of the model: a name the library does define is re-bound by a later load (so the theorem
+above is about the namespace, not about `bound` ignoring the library), and the usual and the unusual
+layout both keep the hook's `__config__`. -/
+example : boundAfter [.defs ["context::jq", "__config__"], .lib] "context::jq" = some .lib ∧
+    boundAfter [.defs ["context::jq", "__config__"], .lib] "__config__" = some .hook ∧
+    boundAfter [.lib, .defs ["__config__"], .lib] "__config__" = some .hook ∧
+    boundAfter [.lib, .defs ["__main__"]] "__config__" = none := by decide
+
+theorem find_congr {p q : String → Bool} : ∀ (l : List String), (∀ n ∈ l, p n = q n) →
+    l.find? p = l.find? q
+  | [], _ => rfl
+  | a :: l, h => by
+    have ha := h a (by simp)
+    have ih := find_congr l (fun n hn => h n (by simp [hn]))
+    simp [List.find?, ha, ih]
+
+theorem runFromIO_congr (e1 e2 : Env) (hf : e1.fails = e2.fails) (hr : e1.reads = e2.reads)
+    (ctxs : List Ctx) (hd : ∀ c ∈ ctxs, ∀ hs, handlers c = some hs → ∀ n ∈ hs, e1.defined n = e2.defined n)
+    (i : Nat) (stdin : List String) : runFromIO e1 i stdin ctxs = runFromIO e2 i stdin ctxs := by
+  induction ctxs generalizing i stdin with
+  | nil => simp [runFromIO]
+  | cons c cs ih =>
+    have ih' := ih (fun c hc => hd c (by simp [hc]))
+    simp only [runFromIO]
+    cases hh : handlers c with
+    | none => rfl
+    | some hs =>
+      dsimp only
+      rw [find_congr hs (hd c (by simp) hs hh)]
+      cases hs.find? e2.defined with
+      | none => rfl
+      | some h =>
+        dsimp only
+        rw [hf, hr, ih']
+
+/-- **C19.6** (the property for every layout) For every sequence of definition / library-loading steps
+in which the hook defines `__config__` somewhere, every list of well-formed contexts, every outcome and
+every standard input: `hook::run` of that script satisfies the property predicate with respect to the
+functions *the hook script defines* — `--config` prints the hook's configuration, every context goes to
+the first documented name the hook defined. -/
+theorem dispatch_for_every_layout (segs : List Seg) (env : Env) (args : List String) (stdin : List String)
+    (ctxs : List Ctx) (hw : ∀ c ∈ ctxs, Spec.wellFormed c)
+    (hcfg : definesIn segs "__config__" = true) (hdef : ∀ n, env.defined n = definesIn segs n) :
+    Spec.holds env args ctxs (hookRunL segs env args stdin ctxs).1 = true := by
+  have h := dispatch_one_io env args stdin ctxs hw
+  have hrun : hookRunL segs env args stdin ctxs = hookRunIO env args stdin ctxs := by
+    unfold hookRunL hookRunIO
+    by_cases ha : (args.head? == some Facts.c19ConfigFlag) = true
+    · have hb := own_definitions_survive_loading segs Facts.c19ConfigFn config_in_hook_namespace.1
+      rw [config_in_hook_namespace.2] at hb
+      simp [ha, config_in_hook_namespace.2, hb, hcfg]
+    · simp only [ha, Bool.false_eq_true, if_false]
+      refine runFromIO_congr { env with defined := fun n => boundAfter segs n == some Owner.hook } env rfl rfl ctxs ?_ 0 stdin
+      intro c hc hs hh n hn
+      have hdoc : hs = Spec.documented c := by
+        have := candidates_spec c (hw c hc)
+        rw [hh] at this
+        exact Option.some.inj this
+      subst hdoc
+      have hnn := documented_in_hook_namespace c n hn
+      have hb := own_definitions_survive_loading segs n hnn
+      show (boundAfter segs n == some Owner.hook) = env.defined n
+      rw [hb, hdef n]
+      cases definesIn segs n <;> simp
+  rw [hrun]
+  exact h
+
+/-- Non-vacuity: the library is loaded after the definitions; `--config` prints, and a context is
+dispatched to the hook's `__main__`. -/
+example :
+    let segs : List Seg := [.defs ["__config__", "__main__"], .lib]
+    let env : Env := { defined := fun n => definesIn segs n, fails := fun _ _ => false }
+    (hookRunL segs env ["--config"] [] []).1 = { config := true } ∧
+    (hookRunL segs env [] [] [{ binding := some "cron", type := some "Schedule" }]).1 =
+      { log := [(0, "__main__")] } := by decide
+
+/-- What runs in the hook's main shell between two iterations of the loop of `hook::run`:
+`hook::_run_first_available_handler`, statement by statement. Its only non-local name is the loop
+variable `handler`; the handler itself runs in a sub-shell `( … )`; nothing here assigns the loop
+variable `i` of `hook::run`, whose header (`for-each-index` of `table_fresh`) takes its values from a
+word list that is expanded once. -/
+theorem runner_in_main_shell :
+    Facts.c19RunnerBody = ["local handlers=()", "read -r -d '' -a handlers <<< \"$1\" || true",
+      "for handler in \"${handlers[@]}\"; do", "if type \"$handler\" >/dev/null 2>&1; then",
+      "(\"$handler\")", "return $?", "fi", "done",
+      ">&2 printf \"ERROR: Can't find any handler from the list: %s\\n.\" \"$(sed -E 's/[[:space:]]+/, /g' <<< \"${handlers[*]}\")\"",
+      "return 1"] := by rfl
+
